@@ -69,12 +69,15 @@ claim("C16", "K (Kani)", "Kani/CBMC harnesses executing the real decoders on sym
       "Narrow: VerifyingKey::read_from_cs framing (buffers <= 8 bytes, toy field + stub commitment scheme) never panics and yields an index-safe key; the reader calls EvaluationDomain::new only inside its precondition and the integer prefix of new does not panic there; ZkStdLibArch::read (<= 18 bytes) lets through only configurations ZkStdLib::configure accepts; G1 point decoding respects the curve/subgroup oracles.",
       "Trusted: Kani/CBMC, struct-assembling stand-ins listed in evidence. Outside: ParamsKZG readers, zkir program decoding, constraint systems with gates in the framing harness, allocation sizes (no resource model), proofs (covered structurally under C03).", "DESIGN 3 C16, 8")
 
+claim("C20", "S (symfield)", "the real generic ipa_prove / ipa_verify (source file included byte-for-byte at build time) executed on a symbolic group in the discrete-log model with the recording transcript; check element normalised to a Laurent polynomial, residual ground coefficient queries decided by z3 || cvc5 (perturbed twin must be sat)",
+      "VERY NARROW, last clause of C20 only: the inner-product argument of the aggregator crate for n = 1, 2, 4, 8 (thorough to 128): completeness for all scalars/bases/challenges, the verifier's check equals the textbook identity, both verdict branches, transcript order (every element absorbed before the challenge that depends on it), every proof element / claimed value / base enters the decided element linearly with a non-zero coefficient. NOT covered: the in-circuit verifier, accumulator agreement, aggregated proofs (10^5-10^6 rows over emulated curve arithmetic).",
+      "Trusted: SymG/SymF models, msm_best replaced by its contract sum(bases[i]*coeffs[i]) (its control flow concretises every scalar; equality of real and shimmed compilations validated at concrete values every run). Outside: knowledge soundness, random-oracle step, light_fiat_shamir, light_self_emulation.", "DESIGN 3 C20, 8.8")
+
 NA = {
     "C08": "placeholder",
     "C09": "not applicable to solver-based checking: a non-interference property of the whole synthesis path whose witness generation concretises at every step (DESIGN 3 C09); assumed and spot-checked by engine C",
     "C13": "not applicable: the pairing is entirely blst C/assembly behind FFI; no Rust arithmetic to encode (DESIGN 3 C13)",
     "C17": "not applicable: quantifies over thread schedules and whole key-generation runs through blst MSM/FFT; nothing symbolic to decide (DESIGN 3 C17)",
-    "C20": "not applicable: the in-circuit verifier is 10^5-10^6 rows over emulated curve arithmetic; out of reach for engines C and S (DESIGN 3 C20)",
 }
 
 import sys
@@ -89,7 +92,7 @@ m = {
               "source_commits": hooks, "add_only": True},
     "engines": [
         {"name": "C (csmt)", "path": "engines/extract + engines/pysmt/vf/{csmt,cengine,cspec,ffchain}.py", "serves_properties": ["C04", "C05", "C06", "C07", "C08", "C18", "C19"], "kind_free_text": "constraint systems emitted by the real chip synthesis, extracted from MockProver, all cells symbolic over F_p; z3-new || cvc5"},
-        {"name": "S (symfield)", "path": "engines/symfield + engines/pysmt/vf/symf.py", "serves_properties": ["C01", "C02", "C03", "C12", "C14", "C15"], "kind_free_text": "generic proof-system code executed on a term-building field, recording transcript, symbolic commitment scheme / pairing engine"},
+        {"name": "S (symfield)", "path": "engines/symfield + engines/pysmt/vf/symf.py", "serves_properties": ["C01", "C02", "C03", "C12", "C14", "C15", "C17", "C20"], "kind_free_text": "generic proof-system code executed on a term-building field, recording transcript, symbolic commitment scheme / pairing engine"},
         {"name": "K (Kani)", "path": "engines/kani/* + engines/pysmt/vf/kani.py", "serves_properties": ["C10", "C11", "C12", "C16", "C15", "C18", "C03", "C14"], "kind_free_text": "Kani 0.68 / CBMC harness crates, blst FFI as recording nondeterministic oracles"},
         {"name": "M (mir2smt)", "path": "engines/pysmt/vf/mir*.py + engines/mirreplay", "serves_properties": ["C10", "C11"], "kind_free_text": "nightly MIR of loop-free integer kernels translated to SMT over Int with mod 2^64 semantics"},
         {"name": "A (auto-smt)", "path": "engines/auto + engines/pysmt/vf/autosmt.py", "serves_properties": ["C19"], "kind_free_text": "z3 RegLan vs the dumped automaton of the real regex compiler"},
